@@ -451,15 +451,57 @@ class Gen:
         if not same and homog:
             self.mce.append([start, n])
 
+    # ---- sum helpers: ChannelList.sum() and Mix.new over flat lists and over NESTED lists of channels (rows given as
+    # plain Python lists or as ChannelList objects).  The block of instructions is what the helper does, in the
+    # order it does it (utils.list_sum row by row, Mix clumping by four into Sum4 / Sum3 / list_sum and reducing
+    # again); Python runs ONE call of the helper.
+    def sum_block(self):
+        rng = self.rng
+        ar = None if self.demand else ['audio', 'control', 'scalar']
+        snapshot = list(self.sigs(ar))
+        if not snapshot:
+            return self.ugen()
+        form = rng.choice(['cl_flat', 'mix_flat', 'mix_flat', 'cl_nested_plain', 'cl_nested_cl', 'mix_nested_plain', 'mix_nested_cl'])
+        nested = 'nested' in form
+        nch = rng.choice([2, 2, 3]) if nested else 1
+        nrows = rng.choice([2, 2, 3, 4, 5, 7, 9, 13] if form.startswith('mix') else [2, 3, 4, 5])
+        pool = snapshot[-10:]
+
+        def pick():
+            return rng.choice(pool)[0] if rng.random() >= 0.2 else self.const()
+        rows = [[pick() for _ in range(nch)] for _ in range(nrows)]
+        if all(self.kind_of(x)[0] == 'c' for x in rows[0]):
+            rows[0][0] = rng.choice(pool)[0]
+        start = len(self.ins)
+
+        def emit(i):
+            if i[0] == 'bin':
+                k = self.bin_kind('add', self.kind_of(i[2]), self.kind_of(i[3]))
+            else:
+                k = self.sumn_kind(i[1:])
+            self.add(i, [k])
+            return ['v', len(self.ins) - 1, 0]
+        finals = (expand_mix if form.startswith('mix') else expand_sum)(rows, emit)
+        count = len(self.ins) - start
+        keep = set(a[1] for a in finals if a[0] == 'v' and a[1] >= start)
+        for j in range(start, start + count):
+            if j not in keep:
+                self.kinds[j] = [('x',)]          # intermediate values of the helper are not visible to the program
+        if count:
+            self.blocks.append([start, count, {'form': form, 'rows': rows, 'result': finals}])
+
     def run(self):
         rng = self.rng
         self.mce = []
+        self.blocks = []
         for _ in range(self.size):
             r = rng.random()
             if r < 0.33 or not self.sigs():
                 self.ugen()
             elif r < 0.42 and self.use_mce:
                 self.mce_group()
+            elif r < 0.47 and self.use_mce:
+                self.sum_block()
             elif r < 0.93:
                 self.arith()
             else:
@@ -469,6 +511,8 @@ class Gen:
         p = {'ins': self.ins}
         if self.mce:
             p['mce'] = self.mce
+        if self.blocks:
+            p['blocks'] = self.blocks
         if self.nir:
             p['ir'] = [rng.choice(CONSTS) for _ in range(self.nir)]
         if self.nkr:
@@ -543,6 +587,61 @@ SEED_PROGS = [
 ]
 
 
+def expand_sum(rows, emit):
+    """utils.list_sum(rows): res = 0; res = res + row, element by element (0 + x is x)."""
+    acc = list(rows[0])
+    for r in rows[1:]:
+        for ch in range(len(acc)):
+            acc[ch] = emit(['bin', 'add', acc[ch], r[ch]])
+    return acc
+
+
+def expand_mix(rows, emit):
+    """Mix.new(rows): clumps of four -> Sum4, of three -> Sum3, shorter -> list_sum; then the same on the results."""
+    nch = len(rows[0])
+    mixed = []
+    for i in range(0, len(rows), 4):
+        cl = rows[i:i + 4]
+        if len(cl) == 4:
+            mixed.append([emit(['sum4'] + [cl[j][ch] for j in range(4)]) for ch in range(nch)])
+        elif len(cl) == 3:
+            mixed.append([emit(['sum3'] + [cl[j][ch] for j in range(3)]) for ch in range(nch)])
+        else:
+            mixed.append(expand_sum(cl, emit))
+    if len(mixed) < 3:
+        return expand_sum(mixed, emit)
+    if len(mixed) == 3:
+        return [emit(['sum3'] + [mixed[j][ch] for j in range(3)]) for ch in range(nch)]
+    return expand_mix(mixed, emit)
+
+
+def fix_blocks(q, k):
+    """Instruction k was deleted from q: False if it belongs to (or is read by) a helper block, else renumber."""
+    if 'blocks' not in q:
+        return True
+
+    def ren(a):
+        if isinstance(a, list) and a and a[0] == 'v':
+            if a[1] == k:
+                raise KeyError
+            return ['v', a[1] - (1 if a[1] > k else 0), a[2]]
+        if isinstance(a, list) and a and a[0] in ('c', 'p'):
+            return a
+        if isinstance(a, list):
+            return [ren(x) for x in a]
+        return a
+    out = []
+    try:
+        for s0, n, spec in q['blocks']:
+            if s0 <= k < s0 + n:
+                return False
+            out.append([s0 - 1 if k < s0 else s0, n, {'form': spec['form'], 'rows': ren(spec['rows']), 'result': ren(spec['result'])}])
+    except KeyError:
+        return False
+    q['blocks'] = out
+    return True
+
+
 def fix_mce(q, k):
     """Instruction k was deleted from q: renumber / shorten the multichannel groups."""
     if 'mce' in q:
@@ -578,6 +677,32 @@ def operator_form_progs():
     return out
 
 
+def sum_helper_progs():
+    """Deterministic instances of the sum helpers: flat and nested (plain lists / ChannelLists), 2 to 13 summands."""
+    out = []
+    for form, nrows, nch in (('cl_nested_plain', 2, 2), ('cl_nested_plain', 3, 2), ('cl_nested_cl', 2, 3), ('mix_nested_plain', 2, 2),
+                             ('mix_nested_plain', 5, 2), ('mix_nested_cl', 4, 2), ('mix_flat', 2, 1), ('mix_flat', 5, 1),
+                             ('mix_flat', 13, 1), ('cl_flat', 4, 1), ('cl_nested_plain', 2, 1)):
+        nested = 'nested' in form
+        ins = [['U', 'Saw', 'audio' if j % 3 else 'control', [C(str(j + 1))]] for j in range(nrows * nch)]
+        rows = [[V(r * nch + ch) for ch in range(nch)] for r in range(nrows)]
+        if nrows > 2:
+            rows[1][0] = C('0')
+            rows[2][nch - 1] = ['c', '2', 'i']
+        start = len(ins)
+
+        def emit(i, ins=ins):
+            ins.append(i)
+            return ['v', len(ins) - 1, 0]
+        finals = (expand_mix if form.startswith('mix') else expand_sum)(rows, emit)
+        count = len(ins) - start
+        ins.append(['out', 'audio', C('0'), [['c', '0']]])
+        ins.append(['out', 'control', C('1'), list(finals)])
+        ins.append(['out', 'control', C('5'), [V(0)]])
+        out.append({'ins': ins, 'blocks': [[start, count, {'form': form if nested or nch == 1 else form, 'rows': rows, 'result': finals}]]})
+    return out
+
+
 def shrink(prog, still_fails, budget=60):
     """Greedy instruction deletion (with index renumbering) while `still_fails(prog)`."""
     def drop(p, k):
@@ -604,6 +729,8 @@ def shrink(prog, still_fails, budget=60):
         q = dict(p)
         q['ins'] = ins
         fix_mce(q, k)
+        if not fix_blocks(q, k):
+            return None
         return q
     cur = prog
     changed = True
